@@ -336,7 +336,7 @@ def r3_container_check(cx):
             every = ni not in r and gtrue[0][0] not in r
         cx.ob("R3", "R3/ContainerPack.check/every-pack-checked", every, g, "every iteration over self.packs reaches one of the per-kind check() calls (or fails)")
     vals = gb.calls(r"HashMap::<.*>::values$")
-    cx.ob("R3", "R3/ContainerPack.check/loops-over-all-packs", len(vals) == 1 and ("field", "packs") in gb.origins(vals[0][1]["args"][0]), g, "the loop ranges over self.packs.values()")
+    cx.ob("R3", "R3/ContainerPack.check/loops-over-all-packs", len(vals) == 1 and ("param", 1) in gb.origins(vals[0][1]["args"][0]) and any(x[0] == "field" for x in gb.origins(vals[0][1]["args"][0])), g, "the loop ranges over the values of the uuid -> reader map held by self (self.packs.values())")
     for kind, pat in (("Manifest", r"ManifestPack as .*Pack>::check$"), ("Directory", r"DirectoryPack as .*Pack>::check$"), ("Content", r"ContentPack as .*Pack>::check$")):
         cs = gb.calls(pat)
         ok = len(cs) == 1 and _in_loop(gb, cs[0][0])
